@@ -85,6 +85,9 @@ def run(ctx):
               ("ints", [0, 1, 2]), ("floats", [0.5, 1.5, 2.5]), ("chars", "AB-")]
     for _ in range(N):
         l1, l2 = rng.randint(0, 8), rng.randint(0, 8)
+        if rng.random() < 0.02:
+            l1, l2 = rng.randint(15, 45), rng.randint(15, 45)      # scale-up slice
+            ctx.count("long_sequences")
         akind, alpha = rng.choice(ALPHAS)       # symbols need not be single characters
         ctx.count("alphabet:" + akind)
         s1 = [rng.choice(alpha) for _ in range(l1)]
